@@ -8,6 +8,7 @@
 -/
 import PonyVerif.Drive.Util
 import PonyVerif.Model.Translate
+import PonyVerif.Model.Distinct
 namespace PonyVerif.Drive.C01
 open Lean PonyVerif.Drive PonyVerif.Model.Q
 
@@ -252,6 +253,15 @@ def handle (j : Json) : Except String Json := do
         let v := py env e
         pure (Json.mkObj [("k", kToJson v.asK), ("v", scalarToJson v.asV)]))
       pure (Json.mkObj [("ok", .arr outs.toArray)])
+  | "distinct" =>
+      -- DISTINCT inference for `select((items) for x in X)`: pk = key attribute names, items = "*" (the variable), "name" (plain attribute) or null (expression)
+      let pk ← (← argArr j "pk").mapM jStr
+      let items ← argArr j "items"
+      let its := items.zipIdx.map (fun (it, i) => match it with
+        | .str "*" => Item.entity
+        | .str n => Item.attr n
+        | _ => Item.expr i)
+      pure (Json.mkObj [("distinct", .bool (needsDistinct pk its))])
   | _ => throw s!"unknown op {op}"
 
 end PonyVerif.Drive.C01
